@@ -51,6 +51,9 @@ Definition direct_outcome (d : dconfig) (ctx : json) (m : string) (p : params) :
           | BRet v => COk v
           | BRpc c msg data => CRaise (CRpc (mk_error error_registry "JsonRpcError" c msg data))
           | BExc _ => CRaise (CRpc (mk_error error_registry "JsonRpcError" ServerError_code ServerError_message None))
+          | BRpcArgs => match args_error e' with
+                        | Some x => CRaise (CRpc (mk_error error_registry "JsonRpcError" (e_code x) (e_msg x) (e_data x)))
+                        | None => CRaise (CRpc (mk_error error_registry "JsonRpcError" ServerError_code ServerError_message None)) end
           end
       end
   end.
